@@ -9,6 +9,10 @@
 //	time <pkgdir>...                additionally rewrite time.Now/Since/NewTicker/Sleep and context.WithTimeout
 //	lru <pkgdir>...                 rewrite the golang-lru import to the vlru shim
 //	watch <pkgdir> <Type.field>...  wrap reads/writes of these struct fields in vsched.R / vsched.W
+//	watchall <pkgdir>...            wrap EVERY addressable access to a struct field of a type declared in the
+//	                                module, to a package-level variable of the module and to a local variable
+//	                                captured by a function literal in vsched.RN / vsched.WN (happens-before
+//	                                race check only, no scheduling point)
 //	add <pkgdir> <harness-relative file>   add a file (tag verif) to a repo package
 //	shims                           map harness/zzverif/* into the repo module (implied by instrument)
 //
@@ -45,6 +49,7 @@ type spec struct {
 	timePkgs   map[string]bool
 	lruPkgs    map[string]bool
 	watch      map[string]map[string]bool // pkgdir -> "Type.field"
+	watchAll   map[string]bool
 	add        [][2]string
 }
 
@@ -58,7 +63,7 @@ func readSpec(path string) *spec {
 	if err != nil {
 		die("%v", err)
 	}
-	s := &spec{instrument: map[string]bool{}, timePkgs: map[string]bool{}, lruPkgs: map[string]bool{}, watch: map[string]map[string]bool{}}
+	s := &spec{instrument: map[string]bool{}, timePkgs: map[string]bool{}, lruPkgs: map[string]bool{}, watch: map[string]map[string]bool{}, watchAll: map[string]bool{}}
 	for _, ln := range strings.Split(string(b), "\n") {
 		if i := strings.IndexByte(ln, '#'); i >= 0 {
 			ln = ln[:i]
@@ -93,6 +98,11 @@ func readSpec(path string) *spec {
 				s.watch[f[1]][w] = true
 			}
 			s.instrument[f[1]] = true
+		case "watchall":
+			for _, p := range f[1:] {
+				s.watchAll[p] = true
+				s.instrument[p] = true
+			}
 		case "add":
 			if len(f) != 3 {
 				die("bad add line %q", ln)
@@ -194,7 +204,7 @@ func main() {
 			if len(lp.CgoFiles) > 0 {
 				die("package %s uses cgo; not supported", p)
 			}
-			rw := &rewriter{fset: fset, sp: sp, pkgdir: p, doTime: sp.timePkgs[p], doLRU: sp.lruPkgs[p], watch: sp.watch[p]}
+			rw := &rewriter{fset: fset, sp: sp, pkgdir: p, doTime: sp.timePkgs[p], doLRU: sp.lruPkgs[p], watch: sp.watch[p], watchAll: sp.watchAll[p]}
 			rw.load(lp, imp)
 			for i, f := range rw.files {
 				changed := rw.rewriteFile(f)
@@ -234,6 +244,9 @@ type rewriter struct {
 	doLRU     bool
 	watch     map[string]bool
 	watchHit  map[string]bool
+	watchAll  bool
+	captured  map[types.Object]bool // local variables referenced from a function literal that does not declare them
+	autoN     int
 	files     []*ast.File
 	info      *types.Info
 	needs     map[string]bool // shim imports needed by the current file
@@ -311,6 +324,9 @@ func (rw *rewriter) rewriteFile(f *ast.File) bool {
 	}
 
 	// 2. statement/expression rewriting
+	if rw.watchAll {
+		rw.findCaptured(f)
+	}
 	pre := func(c *astutil.Cursor) bool { return true }
 	post := func(c *astutil.Cursor) bool {
 		switch n := c.Node().(type) {
@@ -387,6 +403,12 @@ func (rw *rewriter) rewriteFile(f *ast.File) bool {
 				if rw.rewriteWatched(c, n, w) {
 					changed = true
 				}
+			} else if rw.watchAll && rw.autoSelector(c, n) {
+				changed = true
+			}
+		case *ast.Ident:
+			if rw.watchAll && rw.autoIdent(c, n) {
+				changed = true
 			}
 		}
 		return true
@@ -691,3 +713,203 @@ func (rw *rewriter) indexIsWritten(ix *ast.IndexExpr) bool {
 }
 
 func strLit(s string) ast.Expr { return &ast.BasicLit{Kind: token.STRING, Value: fmt.Sprintf("%q", s)} }
+
+// ---- blanket race instrumentation (watchall) ----
+
+// findCaptured records the local variables of f that are used inside a function literal which does not
+// declare them: the only locals that two goroutines can share without going through a struct or a global.
+func (rw *rewriter) findCaptured(f *ast.File) {
+	if rw.captured == nil {
+		rw.captured = map[types.Object]bool{}
+	}
+	var lits []*ast.FuncLit
+	var visit func(n ast.Node) bool
+	visit = func(n ast.Node) bool {
+		switch x := n.(type) {
+		case *ast.FuncLit:
+			lits = append(lits, x)
+			ast.Inspect(x.Body, visit)
+			lits = lits[:len(lits)-1]
+			return false
+		case *ast.Ident:
+			if len(lits) == 0 {
+				return true
+			}
+			v, ok := rw.info.Uses[x].(*types.Var)
+			if !ok || v.IsField() || v.Pkg() == nil || v.Parent() == nil || v.Parent() == v.Pkg().Scope() {
+				return true
+			}
+			for _, fl := range lits {
+				if v.Pos() < fl.Pos() || v.Pos() >= fl.End() {
+					rw.captured[v] = true
+				}
+			}
+		}
+		return true
+	}
+	ast.Inspect(f, visit)
+}
+
+// skipType: synchronisation objects and channels are handled by their own shims; wrapping them would also
+// hide their type from the channel rewrites.
+func skipType(t types.Type) bool {
+	if t == nil {
+		return true
+	}
+	if _, ok := t.Underlying().(*types.Chan); ok {
+		return true
+	}
+	if p, ok := t.(*types.Pointer); ok {
+		t = p.Elem()
+	}
+	if n, ok := t.(*types.Named); ok && n.Obj().Pkg() != nil {
+		switch n.Obj().Pkg().Path() {
+		case "sync", "sync/atomic":
+			return true
+		}
+	}
+	return false
+}
+
+func inModule(pkg *types.Package) bool {
+	return pkg != nil && (pkg.Path() == modPath || strings.HasPrefix(pkg.Path(), modPath+"/")) && !strings.Contains(pkg.Path(), "/zzverif/")
+}
+
+// accessKind classifies the use of expression n (child of parent): 0 = no event, 1 = read, 2 = write.
+func (rw *rewriter) accessKind(parent ast.Node, n ast.Expr) int {
+	switch p := parent.(type) {
+	case *ast.UnaryExpr:
+		if p.Op == token.AND {
+			return 0 // taking the address is not an access
+		}
+	case *ast.AssignStmt:
+		for _, l := range p.Lhs {
+			if l == n {
+				if p.Tok == token.DEFINE {
+					return 0
+				}
+				return 2
+			}
+		}
+	case *ast.IncDecStmt:
+		if p.X == n {
+			return 2
+		}
+	case *ast.RangeStmt:
+		if p.Key == n || p.Value == n {
+			return 0
+		}
+	case *ast.IndexExpr:
+		// m[k] = v / m[k]++ writes the map; an element write of a slice or array only reads the header
+		if p.X == n && rw.indexIsWritten(p) {
+			if tv, ok := rw.info.Types[n]; ok && tv.Type != nil {
+				if _, isMap := tv.Type.Underlying().(*types.Map); isMap {
+					return 2
+				}
+			}
+		}
+	case *ast.CallExpr:
+		if id, ok := p.Fun.(*ast.Ident); ok && id.Name == "delete" && len(p.Args) > 0 && p.Args[0] == n {
+			return 2
+		}
+	}
+	return 1
+}
+
+func (rw *rewriter) wrapAuto(c *astutil.Cursor, n ast.Expr, kind int, name string) bool {
+	fn := "RN"
+	if kind == 2 {
+		fn = "WN"
+	}
+	rw.needs["vsched"] = true
+	rw.autoN++
+	wrapped := &ast.ParenExpr{X: &ast.StarExpr{X: call("vsched", fn, &ast.UnaryExpr{Op: token.AND, X: n}, strLit(name))}}
+	if rw.generated == nil {
+		rw.generated = map[ast.Expr]bool{}
+	}
+	rw.generated[wrapped] = true
+	c.Replace(wrapped)
+	return true
+}
+
+func (rw *rewriter) autoSelector(c *astutil.Cursor, n *ast.SelectorExpr) bool {
+	// package-qualified variable of the module: pkg.Var
+	if id, ok := n.X.(*ast.Ident); ok {
+		if _, isPkg := rw.info.Uses[id].(*types.PkgName); isPkg {
+			v, ok := rw.info.Uses[n.Sel].(*types.Var)
+			if !ok || !inModule(v.Pkg()) || skipType(v.Type()) {
+				return false
+			}
+			k := rw.accessKind(c.Parent(), n)
+			if k == 0 {
+				return false
+			}
+			return rw.wrapAuto(c, n, k, "var "+v.Pkg().Name()+"."+v.Name())
+		}
+	}
+	s := rw.info.Selections[n]
+	if s == nil || s.Kind() != types.FieldVal {
+		return false
+	}
+	tv, ok := rw.info.Types[n]
+	if !ok || !tv.Addressable() || skipType(tv.Type) {
+		return false
+	}
+	fld, ok := s.Obj().(*types.Var)
+	if !ok || !inModule(fld.Pkg()) {
+		return false
+	}
+	recv := s.Recv()
+	if p, ok := recv.(*types.Pointer); ok {
+		recv = p.Elem()
+	}
+	tname := "struct"
+	if named, ok := recv.(*types.Named); ok {
+		tname = named.Obj().Name()
+	}
+	if kv, ok := c.Parent().(*ast.KeyValueExpr); ok && kv.Key == n {
+		return false
+	}
+	k := rw.accessKind(c.Parent(), n)
+	if k == 0 {
+		return false
+	}
+	return rw.wrapAuto(c, n, k, tname+"."+fld.Name())
+}
+
+func (rw *rewriter) autoIdent(c *astutil.Cursor, id *ast.Ident) bool {
+	v, ok := rw.info.Uses[id].(*types.Var)
+	if !ok || v.IsField() || v.Pkg() == nil || skipType(v.Type()) {
+		return false
+	}
+	switch p := c.Parent().(type) {
+	case *ast.SelectorExpr:
+		if p.Sel == id {
+			return false
+		}
+	case *ast.KeyValueExpr:
+		if p.Key == id {
+			if _, isStructLit := rw.info.Uses[id].(*types.Var); isStructLit && v.IsField() {
+				return false
+			}
+		}
+	}
+	name := ""
+	switch {
+	case v.Parent() == v.Pkg().Scope():
+		if !inModule(v.Pkg()) {
+			return false
+		}
+		name = "var " + v.Pkg().Name() + "." + v.Name()
+	case rw.captured[v]:
+		pos := rw.fset.Position(v.Pos())
+		name = fmt.Sprintf("local %s (%s)", v.Name(), filepath.Base(pos.Filename))
+	default:
+		return false
+	}
+	k := rw.accessKind(c.Parent(), id)
+	if k == 0 {
+		return false
+	}
+	return rw.wrapAuto(c, id, k, name)
+}
